@@ -7,6 +7,7 @@
 -/
 import MediaSan.Lemmas.BitBuf
 import MediaSan.Lemmas.BitTrace
+import MediaSan.Lemmas.BufOnly
 import MediaSan.Generated.Vp8lTables
 namespace MediaSan.Props.C19
 open MediaSan MediaSan.Vp8l
@@ -77,6 +78,57 @@ theorem C19_adaptive (cap : Nat) (input : Bytes) (next : List Nat → Option BOp
     (hfit : ∀ hs op, next hs = some op → op.fits cap) :
     runBufStrat next fuel (BitBuf.new cap input) [] = runIdealStrat input next fuel 0 [] :=
   runStrat_refines next fuel (BitBuf.new cap input) input 0 (abs_new cap input) [] hfit
+
+/-! ### the buffer-only accessors of the sub-image loop (`buf_read`, `buf_read_huffman`, `buf_read_lz77`)
+
+  `read` and `read_huffman` refill on demand (theorems above).  The sub-image loop instead refills ONCE per iteration,
+  `if buf_bits() < readahead_bits { fill_buf() }`, and then reads from the buffer only: that is transparent exactly
+  when the iteration never asks for more than `readahead_bits`. -/
+
+/-- after the guarded refill with threshold `r` (r + 7 ≤ 8·cap), EVERY adaptive client of the buffer-only accessors
+    that asks for at most `r` bits in total (`spentOf`: the cost of the operations chosen so far, a code counting with
+    its longest length) gets the whole-string reader's values and end-of-data verdict - for every capacity, input,
+    buffer state and number of steps -/
+theorem C19_guarded_run (s : BitBuf) (orig : Bytes) (d : Nat) (h : Abs s orig d) (r : Nat) (hr : r + 7 ≤ 8 * s.cap)
+    (next : List Nat → Option BOp)
+    (hfit : ∀ hs op, next hs = some op → op.wellFormed ∧ spentOf next hs + op.cost ≤ r) (fuel : Nat) :
+    runBufOnlyStrat next fuel (s.guardedFill r) [] = runIdealStrat orig next fuel (s.absPos d) [] :=
+  guarded_run_refines s orig d h r hr next hfit fuel
+
+/-- the reads of one iteration of the sub-image loop (`iterNext`: green symbol, then red/blue/alpha, or length extra
+    bits + distance symbol + distance extra bits) never ask for more than `readahead_bits` of lossless.rs:303-306,
+    whatever values are read and whatever the five codes are -/
+theorem C19_iteration_within_readahead (g : Group) (hg : g.wellFormed) (hs : List Nat) (op : BOp)
+    (hn : iterNext g hs = some op) : op.wellFormed ∧ spentOf (iterNext g) hs + op.cost ≤ readaheadBits g :=
+  iterNext_within g hg hs op hn
+
+/-- with codes of at most 15 bits the bound is at most 81 bits: every capacity ≥ 11 bytes (the code uses 4096, the
+    hook goes down to 16) satisfies the side condition of `C19_guarded_run` -/
+theorem C19_readahead_le (g : Group) (h1 : g.green.longest ≤ 15) (h2 : g.red.longest ≤ 15) (h3 : g.blue.longest ≤ 15)
+    (h4 : g.alpha.longest ≤ 15) (h5 : g.dist.longest ≤ 15) : readaheadBits g ≤ 81 := by
+  have e : Generated.lz77MaxSymbol = 39 := rfl
+  simp only [readaheadBits, e]
+  omega
+
+/-- **one iteration of the sub-image loop is transparent**: for every buffer state reachable under the abstraction,
+    every capacity that holds the read-ahead, every group of codes and every input, the guarded refill followed by the
+    iteration's buffer-only reads returns what the whole-string reader returns -/
+theorem C19_subimage_iteration (s : BitBuf) (orig : Bytes) (d : Nat) (h : Abs s orig d) (g : Group) (hg : g.wellFormed)
+    (hcap : readaheadBits g + 7 ≤ 8 * s.cap) (fuel : Nat) :
+    runBufOnlyStrat (iterNext g) fuel (s.guardedFill (readaheadBits g)) [] =
+      runIdealStrat orig (iterNext g) fuel (s.absPos d) [] :=
+  guarded_run_refines s orig d h _ hcap (iterNext g) (iterNext_within g hg) fuel
+
+-- the budget hypothesis is what makes it true: a client that asks for 24 bits behind a threshold of 8 is told
+-- "end of data" by a 2-byte buffer while the input has the bits (what an under-estimated read-ahead does)
+example : runBufOnlyStrat (fun hs => if hs.length < 3 then some (.read 8) else none) 4
+      ((BitBuf.new 2 [255, 255, 255]).guardedFill 8) [] = ([255, 255], true) ∧
+    runIdealStrat [255, 255, 255] (fun hs => if hs.length < 3 then some (.read 8) else none) 4 0 [] =
+      ([255, 255, 255], false) := by decide
+-- Non-vacuity: a well-formed group (two-symbol green code, zero-bit others) and its read-ahead
+example : (match newCode [(0, 1), (1, 1)], newCode [(0, 1)] with
+    | .ok c2, .ok c1 => decide (Group.wellFormed ⟨c2, c1, c1, c1, c1⟩) && readaheadBits ⟨c2, c1, c1, c1, c1⟩ == 38
+    | _, _ => false) = true := by decide
 
 -- Non-vacuity: a run of four fields over a 2-byte buffer (refills in between), ending past the end of data
 example : runBufOps [.read 3, .read 7, .read 8, .read 8, .read 8, .read 8] (BitBuf.new 2 [0xA5, 0x3C, 0xFF, 0x01, 0x80]) =
